@@ -418,7 +418,15 @@ class IMAPConnection:
                             response.add_untagged(ResponseBye(msg))
                     else:
                         bad_commands = 0
-                    await self.write_response(response)
+                    try:
+                        await self.write_response(response)
+                    except ResponseError as exc:
+                        # raised while the response data was produced
+                        resp = exc.get_response(cmd.tag)
+                        await self.write_response(resp)
+                    except Exception:
+                        await self.send_error_disconnect()
+                        raise
                     if response.is_terminal:
                         break
                     if isinstance(cmd, StartTLSCommand) \
